@@ -159,7 +159,14 @@ pub enum Decl {
         aligned: Option<u32>,
     },
     Func(FuncDecl),
-    Var { name: String, ty: Ty, is_const: bool },
+    Var {
+        name: String,
+        ty: Ty,
+        is_const: bool,
+        /// `static const T name = (T)init;` — only for const variables of (typedef'd) arithmetic type
+        #[serde(default)]
+        init: Option<i32>,
+    },
     Macro { name: String, body: String },
     /// `struct Tag;` forward declaration that is never completed
     Opaque { tag: String },
@@ -441,13 +448,28 @@ pub fn render_decl(p: &Program, d: &Decl) -> String {
                 format!("{head};\n")
             }
         }
-        Decl::Var { name, ty, is_const } => format!("extern {}{};\n", if *is_const { "const " } else { "" }, declare(p, ty, name)),
+        Decl::Var { name, ty, is_const, init } => match (init, is_const, p.arithmetic(ty)) {
+            (Some(v), true, true) => format!("static const {} = {v};\n", declare(p, ty, name)),
+            _ => format!("extern {}{};\n", if *is_const { "const " } else { "" }, declare(p, ty, name)),
+        },
         Decl::Macro { name, body } => format!("#define {name} {body}\n"),
         Decl::Opaque { tag } => format!("struct {tag};\n"),
     }
 }
 
 impl Program {
+    /// a (typedef of a) non-void arithmetic scalar
+    pub fn arithmetic(&self, t: &Ty) -> bool {
+        match t {
+            Ty::Prim(_) => true,
+            Ty::Named(k) => match &self.decls[*k] {
+                Decl::Typedef { ty, .. } => self.arithmetic(ty),
+                _ => false,
+            },
+            _ => false,
+        }
+    }
+
     pub fn render(&self) -> String {
         let mut s = String::new();
         for d in &self.decls {
@@ -1340,7 +1362,7 @@ pub fn decl_strategy(cfg: &GenCfg, idx: usize, n: usize) -> BoxedStrategy<Decl> 
         choices.push((4, f.boxed()));
     }
     if cfg.vars {
-        choices.push((2, (ty_strategy(cfg, n), any::<bool>(), 0u32..1000).prop_map(move |(ty, is_const, s)| Decl::Var { name: format!("g{idx}_{s}"), ty, is_const }).boxed()));
+        choices.push((2, (ty_strategy(cfg, n), any::<bool>(), 0u32..1000).prop_map(move |(ty, is_const, s)| Decl::Var { name: format!("g{idx}_{s}"), ty, is_const, init: if s % 2 == 0 { Some((s as i32 % 200) - 20) } else { None } }).boxed()));
     }
     if cfg.macros {
         let body = prop_oneof![Just("1".to_string()), Just("0x7fffffff".to_string()), Just("(1u << 31)".to_string()), Just("-5".to_string()), Just("\"text\"".to_string()), Just("3.5".to_string()), Just("'c'".to_string()), Just("(2 + 3 * 4)".to_string())];
